@@ -6,7 +6,10 @@ Extracts, with Python `ast` and FAIL-CLOSED (any statement or expression that is
     the three range tests, the three calls of correct_bounds (axis length, axis number) and the exception raised
   * correct_bounds           : the whole arithmetic, statement by statement, as a `let` chain
   * regenerate_header        : every `header[a:b] = packer(expr)` in program order: guard (an enclosing `if`, else
-    true), byte range, packer, expression
+    true), byte range, packer, expression; and the ONE double-precision patch (D55)
+        if bytes_to_double(header[g0:g1]) != 0: header[lo:hi] = double_to_bytes(float(self.zslices[k]))
+    with its guard bytes, destination bytes, index expression and its place among the integer patches.  A
+    regenerate_header without that statement is refused (the double start of a ZGY-sourced file would stay the source's).
   * write_cropped_file_by_indexes : the layout refusal (if present), the unit counts, the six arguments of
     loader.read_chunk_range, the order "checks, header, chunk read, THEN open(out_file)", the order of the writes, the
     footer loop's skip test (duplicate header words), the reshape, crop window, item size and the padding term of each array
@@ -20,7 +23,9 @@ Conventions of the translation (trusted, validated by the correspondence harness
   * an index range is a pair of Python ints: `r[0]`, `r[1]` become two Coq variables
   * len(self.ilines) / len(self.xlines) / len(self.zslices) are the reader's n_ilines / n_xlines / n_samples
   * self.ilines[k] = il0 + k * il_step etc. (the reader builds its axes with gen_coord_list(start, step, count));
-    np.int32(self.zslices[k]) = truncation of z0_ms + k * dt_us / 1000
+    self.zslices[k] is the sample time (1000 * z0_ms + z0_sub_us + k * dt_us) / 1000 ms (z0_sub_us = 0 unless the source was
+    converted from ZGY with a first sample time between two milliseconds); np.int32(self.zslices[k]) = its truncation;
+    float(self.zslices[k]) is the reader's binary64 element k (Model/Cropper.v, over the doubles of the source header)
   * self.rate is the rational rd_rate_n / rd_rate_d; `(rate * a * b * c) // 8` is the floor of the exact quotient
   * `//` and `%` are Z.div and Z.modulo (Python floor semantics)
 """
@@ -255,7 +260,9 @@ def check_packers(srcdir):
     tree = ast.parse(open(os.path.join(srcdir, 'utils.py')).read())
     want = {'int_to_bytes': "return struct.pack('<I', bytes)",
             'np_float_to_bytes': "return struct.pack('<I', int(numpy_float.astype(int)))",
-            'np_float_to_bytes_signed': "return struct.pack('<i', int(numpy_float.astype(int)))"}
+            'np_float_to_bytes_signed': "return struct.pack('<i', int(numpy_float.astype(int)))",
+            'bytes_to_double': "return struct.unpack('<d', bytes)[0]",
+            'double_to_bytes': "return struct.pack('<d', value)"}
     seen = {}
     for st in tree.body:
         if isinstance(st, ast.FunctionDef) and st.name in want:
@@ -290,6 +297,33 @@ def check_reader_structured(srcdir):
             if ast.unparse(s) not in (need[0], 'self.structured = False',
                                       'self.structured = self.tracecount == self.n_ilines * self.n_xlines'):
                 raise Unrecognised(f'read.SgzReader.__init__: unexpected `{ast.unparse(s)}`')
+
+
+def check_imports(tree):
+    """the helper names the translation gives a fixed meaning (utils.py, checked by check_packers / Gen/Utils.v) are the
+    ones imported from .utils, and nothing at module level rebinds them"""
+    helpers = set(PACKERS) | {'bytes_to_double', 'double_to_bytes', 'pad', 'coord_to_index'}
+    imported, rebound = set(), set()
+    for st in tree.body:
+        if isinstance(st, ast.ImportFrom):
+            for al in st.names:
+                nm = al.asname or al.name
+                if nm in helpers:
+                    if st.module == 'utils' and st.level == 1 and al.asname is None:
+                        imported.add(nm)
+                    else:
+                        rebound.add(nm)
+        elif isinstance(st, (ast.FunctionDef, ast.ClassDef)) and st.name in helpers:
+            rebound.add(st.name)
+        elif isinstance(st, ast.Assign):
+            rebound |= {tg.id for tg in st.targets if isinstance(tg, ast.Name) and tg.id in helpers}
+        elif isinstance(st, ast.Import):
+            rebound |= {(al.asname or al.name) for al in st.names if (al.asname or al.name) in helpers}
+    used = {n.id for n in ast.walk(tree) if isinstance(n, ast.Name) and n.id in helpers}
+    if rebound:
+        raise Unrecognised(f'cropping.py binds {sorted(rebound)} to something else than the helper of utils.py')
+    if used - imported:
+        raise Unrecognised(f'cropping.py uses {sorted(used - imported)} without importing it from .utils')
 
 
 def strip_doc(body):
@@ -466,13 +500,65 @@ def header_patch(st, t, fn):
     return (lo, hi, pk, val)
 
 
+F64_SLOTS = [(84, 92), (92, 100)]      # the doubles SgzReader._parse_coordinates reads; Model/Cropper.v carries exactly these
+
+
+def f64_patch(st, t, fn):
+    """if bytes_to_double(header[g0:g1]) != 0:
+           header[lo:hi] = double_to_bytes(float(self.zslices[<integer expression>]))
+       -> ((g0, g1), (lo, hi), index term) ; None when st is not an `if` on bytes_to_double at all"""
+    if not (isinstance(st, ast.If) and isinstance(st.test, ast.Compare) and isinstance(st.test.left, ast.Call)
+            and isinstance(st.test.left.func, ast.Name) and st.test.left.func.id == 'bytes_to_double'):
+        return None
+    c = st.test
+    if st.orelse or len(st.body) != 1:
+        bad(st, 'double patch: exactly one statement under the guard and no else expected', fn)
+    if not (len(c.ops) == 1 and isinstance(c.ops[0], ast.NotEq) and len(c.comparators) == 1
+            and isinstance(c.comparators[0], ast.Constant) and type(c.comparators[0].value) in (int, float)
+            and c.comparators[0].value == 0):
+        bad(st, 'double patch: the guard must be `bytes_to_double(header[a:b]) != 0`', fn)
+
+    def header_slice(e, what):
+        if not (isinstance(e, ast.Subscript) and isinstance(e.value, ast.Name) and e.value.id == 'header'
+                and isinstance(e.slice, ast.Slice) and e.slice.step is None and e.slice.lower is not None
+                and e.slice.upper is not None):
+            bad(st, f'double patch: {what} must be a slice header[a:b] of the header being patched', fn)
+        lo, hi = t.const(e.slice.lower), t.const(e.slice.upper)
+        if hi - lo != 8:
+            bad(st, f'double patch: {what} header[{lo}:{hi}] is not 8 bytes', fn)
+        if (lo, hi) not in F64_SLOTS:
+            bad(st, f'double patch: {what} header[{lo}:{hi}] is not one of the doubles the reader parses {F64_SLOTS}', fn)
+        return (lo, hi)
+    g = c.left
+    if g.keywords or len(g.args) != 1:
+        bad(st, 'double patch: bytes_to_double takes one argument', fn)
+    guard = header_slice(g.args[0], 'the guard')
+    a = st.body[0]
+    if not (isinstance(a, ast.Assign) and len(a.targets) == 1):
+        bad(st, 'double patch: an assignment to a header slice expected under the guard', fn)
+    dest = header_slice(a.targets[0], 'the destination')
+    v = a.value
+    # double_to_bytes(float(self.zslices[k])): struct.pack('<d', x) of the reader's binary64 sample time, no rounding
+    if not (isinstance(v, ast.Call) and isinstance(v.func, ast.Name) and v.func.id == 'double_to_bytes' and not v.keywords
+            and len(v.args) == 1):
+        bad(st, 'double patch: the value must be double_to_bytes(...)', fn)
+    f = v.args[0]
+    if not (isinstance(f, ast.Call) and isinstance(f.func, ast.Name) and f.func.id == 'float' and not f.keywords
+            and len(f.args) == 1):
+        bad(st, 'double patch: the value must be double_to_bytes(float(self.zslices[k]))', fn)
+    z = f.args[0]
+    if not (isinstance(z, ast.Subscript) and is_self_attr(z.value, 'zslices') and not isinstance(z.slice, ast.Slice)):
+        bad(st, 'double patch: float() of something else than an element self.zslices[k] of the sample axis', fn)
+    return (guard, dest, t.z(z.slice))
+
+
 def gen_header(fd, consts):
     fn = 'regenerate_header'
     if params_of(fd, fn) != ['self'] + RANGES:
         bad(fd, 'parameters changed', fn)
     t = Tx(consts, fn)
     box_env(t)
-    lets, fields, base, ret = [], [], False, False
+    lets, fields, base, ret, f64 = [], [], False, False, []
     for st in strip_doc(fd.body):
         if ret:
             bad(st, 'statement after return', fn)
@@ -489,6 +575,10 @@ def gen_header(fd, consts):
             if not base:
                 bad(st, 'header patch before the copy of the source header', fn)
             fields.append(('true',) + header_patch(st, t, fn))
+        elif isinstance(st, ast.If) and f64_patch(st, t, fn) is not None:
+            if not base:
+                bad(st, 'header patch before the copy of the source header', fn)
+            f64.append((len(fields),) + f64_patch(st, t, fn))
         elif isinstance(st, ast.If) and not st.orelse and len(st.body) == 1 and isinstance(st.body[0], ast.Assign) \
                 and len(st.body[0].targets) == 1 and isinstance(st.body[0].targets[0], ast.Subscript):
             if not base:
@@ -500,10 +590,29 @@ def gen_header(fd, consts):
             bad(st, 'statement not recognised', fn)
     if not (base and ret):
         bad(fd, 'skeleton changed', fn)
-    out = f'Definition crp_header_fields (H : hdr) (A : axes) {BOX} : list (bool * Z * Z * packer * Z) :=\n'
-    for n, v in lets:
-        out += f'  let {n} := {v} in\n'
-    out += '  [' + ';\n   '.join(f'({en}, {lo}, {hi}, {pk}, {val})' for en, lo, hi, pk, val in fields) + '].\n'
+    # D55: a file converted from ZGY keeps its sample axis in the doubles at 84:100, which the reader prefers: exactly one
+    # statement must move the double start
+    if len(f64) != 1:
+        bad(fd, f'{len(f64)} double-precision patches (exactly one expected: a sample crop of a ZGY-sourced file must move '
+                'the double start at bytes 84:92, D55)', fn)
+    # the guard reads the header as patched so far and the model takes the source's doubles for it: no integer patch,
+    # executed or not, may touch the bytes of the two doubles
+    for en, lo, hi, pk, val in fields:
+        if lo < F64_SLOTS[-1][1] and F64_SLOTS[0][0] < hi:
+            bad(fd, f'integer patch header[{lo}:{hi}] overlaps the doubles at bytes {F64_SLOTS[0][0]}:{F64_SLOTS[-1][1]}', fn)
+    letchain = ''.join(f'  let {n} := {v} in\n' for n, v in lets)
+    out = f'Definition crp_header_fields (H : hdr) (A : axes) {BOX} : list (bool * Z * Z * packer * Z) :=\n' + letchain
+    out += '  [' + ';\n   '.join(f'({en}, {lo}, {hi}, {pk}, {val})' for en, lo, hi, pk, val in fields) + '].\n\n'
+    pos, guard, dest, idx = f64[0]
+    out += '(* the double-precision sample axis of files converted from ZGY (D55).  In program order after the first crp_f64_after\n' \
+           '   integer patches:   if bytes_to_double(header[g0:g1]) != 0: header[lo:hi] = double_to_bytes(float(self.zslices[k]))\n' \
+           '   crp_f64_guard = (g0, g1), crp_f64_dest = (lo, hi), crp_f64_zslice = k.  The guard reads the header as patched so far;\n' \
+           '   no integer patch touches bytes 84..99 (checked by the generator; Proofs/Cropper.v: f64_slots_untouched), so it is\n' \
+           '   the double of the SOURCE header.  double_to_bytes(float(x)) = struct.pack(\'<d\', x): the binary64 value itself. *)\n'
+    out += f'Definition crp_f64_after : nat := {pos}.\n'
+    out += f'Definition crp_f64_guard : Z * Z := ({guard[0]}, {guard[1]}).\n'
+    out += f'Definition crp_f64_dest : Z * Z := ({dest[0]}, {dest[1]}).\n'
+    out += f'Definition crp_f64_zslice (H : hdr) {BOX} : Z :=\n{letchain}  {idx}.\n'
     return out
 
 
@@ -677,11 +786,14 @@ Open Scope Z_scope.
 
 (* ---- fixed conventions of the translation (see the docstring of tools/genx_cropping.py) ---- *)
 (* the source axes as the reader builds them: gen_coord_list(start, step, count) *)
-Record axes := { ax_z0_ms : Z; ax_dt_us : Z; ax_xl0 : Z; ax_xl_step : Z; ax_il0 : Z; ax_il_step : Z }.
+Record axes := { ax_z0_ms : Z; ax_dt_us : Z; ax_xl0 : Z; ax_xl_step : Z; ax_il0 : Z; ax_il_step : Z;
+                 (* first sample time = 1000 * ax_z0_ms + ax_z0_sub_us microseconds: 0 for every file whose sample axis comes from
+                    the integer fields (16:20 is whole milliseconds); a file converted from ZGY may start between milliseconds *)
+                 ax_z0_sub_us : Z }.
 Definition crp_ilines_at (A : axes) (k : Z) : Z := ax_il0 A + k * ax_il_step A.
 Definition crp_xlines_at (A : axes) (k : Z) : Z := ax_xl0 A + k * ax_xl_step A.
-(* np.int32(self.zslices[k]): the sample time z0_ms + k * dt_us / 1000 truncated towards zero *)
-Definition crp_zslices_at_int32 (A : axes) (k : Z) : Z := Z.quot (1000 * ax_z0_ms A + k * ax_dt_us A) 1000.
+(* np.int32(self.zslices[k]): the sample time (1000 * z0_ms + z0_sub_us + k * dt_us) / 1000 truncated towards zero *)
+Definition crp_zslices_at_int32 (A : axes) (k : Z) : Z := Z.quot (1000 * ax_z0_ms A + ax_z0_sub_us A + k * ax_dt_us A) 1000.
 Definition crp_blockshape (H : hdr) (axis : Z) : Z :=
   if axis =? 0 then rd_blockshape0 H else if axis =? 1 then rd_blockshape1 H else rd_blockshape2 H.
 (* SgzReader.__init__: is_2d = (blockshape[0] == 1); structured = False if is_2d else tracecount == n_ilines * n_xlines *)
@@ -700,6 +812,7 @@ def generate(srcdir):
     check_packers(srcdir)
     check_reader_structured(srcdir)
     tree = ast.parse(open(os.path.join(srcdir, 'cropping.py')).read())
+    check_imports(tree)
     cls = None
     for st in tree.body:
         if isinstance(st, ast.ClassDef) and st.name == 'SgzCropper':
